@@ -87,3 +87,50 @@ package interceptor
 //@   ensures result1 == (name in mapping)
 //@   ensures result1 ==> result0 == mapping[name]
 //@   assigns nothing
+
+// ---------------------------------------------------------------------------------------------
+// C14: search-attribute keys are renamed consistently, values untouched, unmapped keys preserved;
+// workflow-service methods are excluded.
+// ---------------------------------------------------------------------------------------------
+
+// newKey(m, k): the key under which the entry for k is stored
+//@ func newKey(m stringMatcher, k string) string = ite(call1(m, k) && call0(m, k) != k, call0(m, k), k)
+
+// Under the statement's premise (renamed keys do not collide with each other or with kept keys) the result holds
+// exactly one entry per input entry, under the renamed key, with the SAME payload reference.
+//@ contract translateIndexedFields
+//@   props C14
+//@   pure match
+//@   requires forall a string, b string :: { newKey(match, a), newKey(match, b) } a in fields && b in fields && a != b ==> newKey(match, a) != newKey(match, b)
+//@   ensures @nil: fields == nil ==> result0 == nil && !result1
+//@   ensures @renamed: fields != nil ==> forall k string :: { k in fields } k in fields ==> newKey(match, k) in result0 && result0[newKey(match, k)] == fields[k]
+//@   ensures @nothing_else: fields != nil ==> forall k2 string :: { k2 in result0 } k2 in result0 ==> exists k string :: k in fields && newKey(match, k) == k2
+//@   ensures @matched: fields != nil ==> (result1 <==> exists k string :: k in fields && call1(match, k))
+//@   ensures @fresh_map: fields != nil ==> fresh(result0)
+//@   assigns nothing
+//@   loop 1 invariant newIndexed != nil && fresh(newIndexed)
+//@   loop 1 invariant forall k string :: { k in $seen } k in $seen ==> newKey(match, k) in newIndexed && newIndexed[newKey(match, k)] == fields[k]
+//@   loop 1 invariant forall k2 string :: { k2 in newIndexed } k2 in newIndexed ==> exists k string :: k in $seen && newKey(match, k) == k2
+//@   loop 1 invariant anyMatched <==> exists k string :: k in $seen && call1(match, k)
+
+// The search-attribute translator applies to every method except the workflow service (its responses carry aliases).
+//@ contract NewSearchAttributeTranslator$1
+//@   props C14
+//@   ensures result == !hasPrefix(method, api.WorkflowServicePrefix)
+//@   assigns nothing
+
+//@ extern pure (Translator).MatchMethod
+//@ extern quiet (Translator).TranslateRequest
+//@ extern quiet (Translator).TranslateResponse
+//@ extern quiet (Translator).Kind
+//@ extern quiet logTranslateResult
+//@ extern $handler@(*TranslationInterceptor).Intercept
+//@   assigns *
+//@ extern $handler@(*TranslationInterceptor).InterceptStream
+//@   assigns *
+// A translator touches a request or response only when its method filter accepts the call.
+//@ contract (*TranslationInterceptor).Intercept
+//@   props C14 C13
+//@   requires info != nil
+//@   callpre TranslateRequest: @filtered: $recv.MatchMethod(info.FullMethod) && !common.IsRequestTranslationDisabled(ctx)
+//@   callpre TranslateResponse: @filtered: $recv.MatchMethod(info.FullMethod) && !common.IsRequestTranslationDisabled(ctx)
